@@ -46,7 +46,7 @@ warnings.filterwarnings("ignore", category=DeprecationWarning)
 warnings.filterwarnings("ignore", category=UserWarning)
 
 ID = "C20"
-LEAN_TARGETS = ["RV.C20.Props", "RV.C20.TextProps", "RV.C20.ValuesProps", "RV.C20.ConnProps", "RV.C20.ResultProps", "RV.C20.Audit"]
+LEAN_TARGETS = ["RV.C20.Props", "RV.C20.TextProps", "RV.C20.ValuesProps", "RV.C20.ConnProps", "RV.C20.ResultProps", "RV.C20.EndToEnd", "RV.C20.Audit"]
 AUDIT = "RV/C20/Audit.lean"
 DRIVER = "drv_c20"
 CASES = {"quick": 600, "thorough": 12000, "search": 4000}
@@ -754,7 +754,7 @@ def driver_session(case, captured, meta=None):
         lines.append(f"asm {m['cmethod']} {_cps(m['ep_path'])} {m['cfmt']} {case.get('extra', 0)} "
                      f"{_cps(AUTH_VALUE) if case.get('auth') else '-'} {m['kind']} {dg} {_cps(m['text'])}")
     p = subprocess.run([exe], input="\n".join(lines) + "\n", stdout=subprocess.PIPE, stderr=subprocess.PIPE,
-                       text=True, timeout=60)
+                       text=True, timeout=60 * float(os.environ.get("VERIF_TIMEOUT_SCALE", "1") or 1))
     out = p.stdout.split("\n")
     if p.returncode != 0 or len(out) < len(lines):
         return None
